@@ -7,6 +7,8 @@ pub fn replay(prop: &'static str, engine: &str, case: &Value, path: &str) -> i32
         "tinylfu" => crate::lfu::replay_tinylfu(prop, case),
         "sampledlfu" => crate::lfu::replay_sampled(case),
         "grid" => crate::grid::replay_point(case["point"].as_str().unwrap_or("")),
+        "faults" => crate::faults::replay_case(case),
+        "probes" => crate::probes::replay_case(case),
         "putresult" => crate::grid::put_result_structural().violations.into_iter().map(|e| e.finding).collect(),
         other => {
             eprintln!("no replay support for engine {:?}", other);
